@@ -540,10 +540,13 @@ func (s *slicer) resolveCall(call *ssa.Call, result int, k int, depth int) *prov
 	// repository function returning a string: union of its returned values (one level)
 	if sf := staticFn(&call.Call); sf != nil && s.c.P.IsRepoFn(sf) && len(sf.Blocks) > 0 && depth < 30 {
 		p := &prov{Kind: "alt"}
-		sub := &slicer{c: s.c, ch: &chain{entry: sf}}
+		// resolve the callee's results with its parameters bound to this call's arguments:
+		// extend the chain by a virtual edge caller -> callee
+		edges := append(append([]Edge{}, s.ch.edges[:k]...), Edge{Caller: s.fnAt(k), Callee: sf, Site: call, Kind: "static"})
+		sub := &slicer{c: s.c, ch: &chain{entry: s.ch.entry, edges: edges}}
 		allInstrs(sf, func(in ssa.Instruction) {
 			if r, ok := in.(*ssa.Return); ok && result < len(r.Results) {
-				p.Args = append(p.Args, sub.resolve(r.Results[result], 0, depth+5))
+				p.Args = append(p.Args, sub.resolve(r.Results[result], k+1, depth+5))
 			}
 		})
 		// parameters of that function are its own arguments: mark as call
@@ -707,6 +710,24 @@ func (c *Ctx) flagValues(cmd *Command, name string) (map[ssa.Value]bool, ssa.Val
 			for _, r := range referrers(v) {
 				switch x := r.(type) {
 				case *ssa.Store:
+					// a struct field holding the flag: every store to that field must be a flag value
+					if fa, isFA := x.Addr.(*ssa.FieldAddr); isFA && x.Val == v {
+						if f := fieldVarOf(fa); f != nil {
+							stores, loads := c.fieldAccesses(f)
+							all := true
+							for _, st := range stores {
+								if !vals[st.Val] {
+									all = false
+								}
+							}
+							if all {
+								for _, ld := range loads {
+									add(ld)
+								}
+							}
+						}
+						continue
+					}
 					// variable holding the flag: every store to it must be a flag value
 					al, ok := x.Addr.(*ssa.Alloc)
 					if !ok || x.Val != v {
@@ -915,22 +936,14 @@ func (c *Ctx) RuleFsTarget(commands []string) *Result {
 	return res
 }
 
-// readBeforeWrite: some os.ReadFile/os.Open of the same path value dominates the write.
+// readBeforeWrite: some os.ReadFile/os.Open of the same path value dominates the
+// write — in the writing function, or, when path is a parameter of a writing
+// helper, in every caller before the call.
 func (c *Ctx) readBeforeWrite(ws *writeSite) string {
-	pathV := ws.cc.Args[ws.prim.pathArg]
-	found := false
-	allInstrs(ws.fn, func(in ssa.Instruction) {
-		call, ok := in.(*ssa.Call)
-		if !ok {
-			return
+	for _, w := range c.writeContexts(ws) {
+		if dominatingRead(w.fn, w.pathV, w.site) == nil {
+			return fmt.Sprintf("the written path is not the path of a read that dominates the write (looked in %s): the command could create a file instead of rewriting one", load.FnName(w.fn))
 		}
-		f := staticCallee(&call.Call)
-		if (isFn(f, "os", "ReadFile") || isFn(f, "os", "Open")) && call.Call.Args[0] == pathV && instrDominates(call, ws.call) {
-			found = true
-		}
-	})
-	if !found {
-		return "the written path is not the path of a read that dominates the write in the same function: the command could create a file instead of rewriting one"
 	}
 	return ""
 }
@@ -1238,95 +1251,87 @@ func (c *Ctx) RuleFsSame(commands []string) *Result {
 				res.undecided(key, pos, "the write primitive has no data argument to compare")
 				continue
 			}
-			data := stripConv(ws.cc.Args[ws.prim.dataArg])
-			pathV := ws.cc.Args[ws.prim.pathArg]
-			// the flag as seen in this function
-			var flagHere []ssa.Value
-			for v := range vals {
-				switch x := v.(type) {
-				case *ssa.Parameter:
-					if x.Parent() == ws.fn {
-						flagHere = append(flagHere, v)
-					}
-				case ssa.Instruction:
-					if x.Parent() == ws.fn {
-						flagHere = append(flagHere, v)
-					}
-				case *ssa.FreeVar:
-					if x.Parent() == ws.fn {
-						flagHere = append(flagHere, v)
-					}
-				}
-			}
-			if len(flagHere) == 0 {
-				res.bad(key, pos, "the function that writes does not see the check flag: check mode cannot agree with the rewrite here")
-				continue
-			}
-			var eq *ssa.Call
 			var problems []string
-			allInstrs(ws.fn, func(in ssa.Instruction) {
-				call, ok := in.(*ssa.Call)
-				if !ok || !isFn(staticCallee(&call.Call), "bytes", "Equal") {
-					return
+			for _, w := range c.writeContexts(ws) {
+				where := load.FnName(w.fn)
+				data := stripConv(w.dataV)
+				flagHere := flagValuesIn(vals, w.fn)
+				if len(flagHere) == 0 {
+					problems = append(problems, where+" does not see the check flag: check mode cannot agree with the rewrite here")
+					continue
 				}
-				a, b := stripConv(call.Call.Args[0]), stripConv(call.Call.Args[1])
-				var other ssa.Value
-				switch {
-				case a == data:
-					other = b
-				case b == data:
-					other = a
-				default:
-					return
-				}
-				// other must be the contents read from the written path
-				if ex, ok := other.(*ssa.Extract); ok && ex.Index == 0 {
-					if rc, ok := ex.Tuple.(*ssa.Call); ok && isFn(staticCallee(&rc.Call), "os", "ReadFile") && rc.Call.Args[0] == pathV {
-						eq = call
+				var eq *ssa.Call
+				allInstrs(w.fn, func(in ssa.Instruction) {
+					call, ok := in.(*ssa.Call)
+					if !ok || !isFn(staticCallee(&call.Call), "bytes", "Equal") {
+						return
 					}
+					a, b := stripConv(call.Call.Args[0]), stripConv(call.Call.Args[1])
+					var other ssa.Value
+					switch {
+					case a == data:
+						other = b
+					case b == data:
+						other = a
+					default:
+						return
+					}
+					if ex, ok := other.(*ssa.Extract); ok && ex.Index == 0 {
+						if rc, ok := ex.Tuple.(*ssa.Call); ok && isFn(staticCallee(&rc.Call), "os", "ReadFile") && rc.Call.Args[0] == w.pathV {
+							eq = call
+						}
+					}
+				})
+				if eq == nil {
+					problems = append(problems, "no bytes.Equal(<contents read from the written path>, <bytes passed to the write>) in "+where+": the check verdict is not about the bytes the rewrite would write")
+					continue
 				}
-			})
-			if eq == nil {
-				res.bad(key, pos, "no bytes.Equal(<contents read from the written path>, <bytes passed to the write>) in this function: the check verdict is not about the bytes the rewrite would write")
-				continue
-			}
-			bools := func(eqv bool) map[ssa.Value]bool {
-				m := map[ssa.Value]bool{eq: eqv}
-				for _, f := range flagHere {
-					m[f] = true
+				helperFails := false
+				if w.helper != nil {
+					helperFails = c.helperFailsUnder(w.helper, flagValuesIn(vals, w.helper))
 				}
-				return m
-			}
-			// unequal under --check: every path fails
-			{
+				nilOf := func(op ssa.Value, e *pathEnv) nilness {
+					if op == nil {
+						return nilUnknown
+					}
+					if w.helper != nil && e.resolve(op) == ssa.Value(w.site.(*ssa.Call)) {
+						if helperFails {
+							return nonNil
+						}
+						return nilUnknown
+					}
+					return e.nilnessOf(op)
+				}
+				mk := func(eqv bool) map[ssa.Value]bool {
+					m := map[ssa.Value]bool{eq: eqv}
+					for _, f := range flagHere {
+						m[f] = true
+					}
+					return m
+				}
 				env := newEnvAt(eq.Block())
-				env.bools = bools(false)
+				env.bools = mk(false)
 				c.explore(eq.Block(), instrIndex(eq)+1, env, exploreCB{
 					ret: func(r *ssa.Return, e *pathEnv) {
-						op := retErrOperand(r)
-						if op == nil || e.nilnessOf(op) != nonNil {
-							problems = append(problems, fmt.Sprintf("with --check and differing contents the function can return success at %s", c.P.InstrPos(r)))
+						if nilOf(retErrOperand(r), e) != nonNil {
+							problems = append(problems, fmt.Sprintf("with --check and differing contents %s can return success at %s", where, c.P.InstrPos(r)))
 						}
 					},
 				})
-			}
-			// equal under --check: success is possible
-			{
-				env := newEnvAt(eq.Block())
-				env.bools = bools(true)
+				env2 := newEnvAt(eq.Block())
+				env2.bools = mk(true)
 				okNil := false
-				c.explore(eq.Block(), instrIndex(eq)+1, env, exploreCB{
+				c.explore(eq.Block(), instrIndex(eq)+1, env2, exploreCB{
 					ret: func(r *ssa.Return, e *pathEnv) {
-						if op := retErrOperand(r); op != nil && e.nilnessOf(op) == isNil {
+						if nilOf(retErrOperand(r), e) == isNil {
 							okNil = true
 						}
 					},
 				})
 				if !okNil {
-					problems = append(problems, "with --check and identical contents the function never returns success")
+					problems = append(problems, "with --check and identical contents "+where+" never returns success")
 				}
 			}
-			// the comparison must be evaluated on the check path: eq dominates no write... and is reachable under check
 			if len(problems) > 0 {
 				res.bad(key, pos, strings.Join(uniq(problems), "; "))
 			} else {
@@ -1344,6 +1349,149 @@ func uniq(xs []string) []string {
 		if !seen[x] {
 			seen[x] = true
 			out = append(out, x)
+		}
+	}
+	return out
+}
+
+// writeCtx is the place where a write is judged together with the read of the
+// same file: the write site itself, or — when the writing function receives
+// path and data as parameters (a helper split off the per-file function) — each
+// call of that helper, with the arguments standing for path and data.
+type writeCtx struct {
+	fn     *ssa.Function
+	site   ssa.Instruction // the write, or the call of the writing helper
+	pathV  ssa.Value
+	dataV  ssa.Value
+	helper *ssa.Function // non-nil when lifted
+	ws     *writeSite
+}
+
+func paramIndex(fn *ssa.Function, v ssa.Value) int {
+	v = stripConv(v)
+	for i, p := range fn.Params {
+		if ssa.Value(p) == v {
+			return i
+		}
+	}
+	return -1
+}
+
+func dominatingRead(fn *ssa.Function, pathV ssa.Value, site ssa.Instruction) *ssa.Call {
+	var read *ssa.Call
+	allInstrs(fn, func(in ssa.Instruction) {
+		call, ok := in.(*ssa.Call)
+		if !ok || read != nil {
+			return
+		}
+		f := staticCallee(&call.Call)
+		if (isFn(f, "os", "ReadFile") || isFn(f, "os", "Open")) && call.Call.Args[0] == pathV && instrDominates(call, site) {
+			read = call
+		}
+	})
+	return read
+}
+
+// writeContexts returns where to judge ws (see writeCtx).
+func (c *Ctx) writeContexts(ws *writeSite) []*writeCtx {
+	if ws.prim.pathArg < 0 {
+		return nil
+	}
+	pathV := ws.cc.Args[ws.prim.pathArg]
+	var dataV ssa.Value
+	if ws.prim.dataArg >= 0 {
+		dataV = ws.cc.Args[ws.prim.dataArg]
+	}
+	if dominatingRead(ws.fn, pathV, ws.call) != nil {
+		return []*writeCtx{{fn: ws.fn, site: ws.call, pathV: pathV, dataV: dataV, ws: ws}}
+	}
+	pi := paramIndex(ws.fn, pathV)
+	di := -1
+	if dataV != nil {
+		di = paramIndex(ws.fn, dataV)
+	}
+	if pi < 0 || (dataV != nil && di < 0) {
+		return []*writeCtx{{fn: ws.fn, site: ws.call, pathV: pathV, dataV: dataV, ws: ws}}
+	}
+	var out []*writeCtx
+	for _, e := range c.Graph().In[ws.fn] {
+		cc := callCommon(e.Site)
+		if cc == nil || staticFn(cc) != ws.fn || pi >= len(cc.Args) {
+			continue
+		}
+		w := &writeCtx{fn: e.Caller, site: e.Site, pathV: cc.Args[pi], helper: ws.fn, ws: ws}
+		if di >= 0 && di < len(cc.Args) {
+			w.dataV = cc.Args[di]
+		}
+		out = append(out, w)
+	}
+	if len(out) == 0 {
+		return []*writeCtx{{fn: ws.fn, site: ws.call, pathV: pathV, dataV: dataV, ws: ws}}
+	}
+	return out
+}
+
+// helperFailsUnder: with the given flag parameters of helper assumed true, does
+// every path of helper end in a non-nil error (or a loud exit)?
+func (c *Ctx) helperFailsUnder(helper *ssa.Function, flagParams []ssa.Value) bool {
+	if len(helper.Blocks) == 0 || len(flagParams) == 0 {
+		return false
+	}
+	env := newEnvAt(helper.Blocks[0])
+	env.bools = map[ssa.Value]bool{}
+	for _, p := range flagParams {
+		env.bools[p] = true
+	}
+	all := true
+	c.explore(helper.Blocks[0], 0, env, exploreCB{
+		ret: func(r *ssa.Return, e *pathEnv) {
+			if op := retErrOperand(r); op == nil || e.nilnessOf(op) != nonNil {
+				all = false
+			}
+		},
+	})
+	return all
+}
+
+// helperWritesOrFails: with the flag parameters assumed false, every success
+// return of helper follows the write.
+func (c *Ctx) helperWritesOrFails(helper *ssa.Function, write ssa.Instruction, flagParams []ssa.Value) bool {
+	if len(helper.Blocks) == 0 {
+		return false
+	}
+	env := newEnvAt(helper.Blocks[0])
+	env.bools = map[ssa.Value]bool{}
+	for _, p := range flagParams {
+		env.bools[p] = false
+	}
+	ok := true
+	c.explore(helper.Blocks[0], 0, env, exploreCB{
+		instr: func(in ssa.Instruction, e *pathEnv) bool { return in == write },
+		ret: func(r *ssa.Return, e *pathEnv) {
+			if op := retErrOperand(r); op == nil || e.nilnessOf(op) != nonNil {
+				ok = false
+			}
+		},
+	})
+	return ok
+}
+
+func flagValuesIn(vals map[ssa.Value]bool, fn *ssa.Function) []ssa.Value {
+	var out []ssa.Value
+	for v := range vals {
+		switch x := v.(type) {
+		case *ssa.Parameter:
+			if x.Parent() == fn {
+				out = append(out, v)
+			}
+		case *ssa.FreeVar:
+			if x.Parent() == fn {
+				out = append(out, v)
+			}
+		case ssa.Instruction:
+			if x.Parent() == fn {
+				out = append(out, v)
+			}
 		}
 	}
 	return out
